@@ -23,7 +23,7 @@ SET_LAYOUTS = {
     True: ['sh.set.after_handler_clear', 'sh.set.after_data', 'sh.set.after_handler'],
 }
 LAYOUT_NAME = {(False, False): 'pinned', (True, False): 'ctorfix', (False, True): 'regfix', (True, True): 'fixed'}
-NSTEPS = {'C': 7, 'R': 2, 'W': 1, 'D': 5}
+NSTEPS = {'C': 7, 'R': 2, 'W': 1, 'D': 5, 'N': 1}
 CTOR_NAMES = CTOR_LAYOUTS[False]
 SET_NAMES = SET_LAYOUTS[False]
 
@@ -71,11 +71,12 @@ EXTRA_PROGRAMS = [
     'C R:1:1 W D W C R:2:2 W D W',            # two handler objects one after the other
     'W C D',
     'C R:2:1 R:1:2 R:3:3 D W W',
+    'N:1:1 W C R:2:2 W D N:3:3 W',             # registration attempts while no handler object exists (BasicSolver::SetHandler)
 ]
 
 
-OUT_STATES = ['file', 'pipe', 'null', 'closed', 'full', 'ro']      # what fd 1 is while the program runs
-UNWRITABLE = ('closed', 'full', 'ro')                              # write(1, ...) fails
+OUT_STATES = ['file', 'pipe', 'null', 'closed', 'full', 'ro', 'part']      # what fd 1 is while the program runs
+UNWRITABLE = ('closed', 'full', 'ro', 'part')                      # write(1, ...) fails (part: after a short write)                              # write(1, ...) fails
 BRK_RE = re.compile(r'brk=[^,)]*')
 
 
@@ -115,6 +116,8 @@ def random_program(rng):
     prog = []
     if rng.random() < 0.2:
         prog.append('W')
+    if rng.random() < 0.15:
+        prog.append('N:%d:%d' % (rng.choice([1, 2, 3]), rng.choice([0, 1, 2])))
     for life in range(1 if rng.random() < 0.8 else 2):
         prog.append('C')
         for _ in range(rng.choice([0, 1, 1, 2, 2, 3, 4])):
@@ -127,6 +130,8 @@ def random_program(rng):
             prog.append('D')
             for _ in range(rng.choice([0, 1, 1, 2])):
                 prog.append('W')
+            if rng.random() < 0.2:
+                prog.append('N:%d:%d' % (rng.choice([1, 2, 3]), rng.choice([0, 1, 2])))
         else:
             break
     # a second ctor needs a preceding dtor: guaranteed by construction (life 0 always ends with D)
@@ -201,6 +206,25 @@ def gen_cases(ck):
                     cases.append(('enum-inherited-ign', '%s/%s/ign %s | %s' % (mode, out, prog, sch)))
                     cnt += 1
                 enum_desc.append('%s/%s/%s/ign/k=%d/%s:%d' % (prog.replace(' ', ''), mode, out, k, kinds.__name__, cnt))
+    # the registration sequence real drivers perform: mp::BackendApp (InitHandlers / destructor) around a StdBackend
+    # (RunFromNLFile: ReadNL, SetupTimerAndInterrupter -> SetupInterrupter -> SetInterrupter(interrupter()), Solve, Report)
+    for var in ('APP', 'APPA', 'APPE', 'APPX', 'APPU'):
+        n = nsteps(APP_VARIANTS[var])
+        for mode in ('bsd', 'sysv'):
+            if var != 'APP' and mode == 'sysv' and not thorough:
+                continue
+            for k in (0, 1, 2, 3):
+                if var == 'APP':
+                    kinds = all_kinds if k <= 2 else (all_kinds if thorough else int_only)
+                else:
+                    kinds = all_kinds if (k <= 1 or thorough) else alternating
+                if k == 3 and not thorough and (mode == 'sysv' or var != 'APP'):
+                    continue
+                cnt = 0
+                for sch in schedules(n, k, kinds):
+                    cases.append(('enum-backendapp', '%s %s | %s' % (mode, var, sch)))
+                    cnt += 1
+                enum_desc.append('BackendApp:%s/%s/k=%d/%s:%d' % (var, mode, k, kinds.__name__, cnt))
     for prog in EXTRA_PROGRAMS:
         n = nsteps(prog)
         for mode in ('bsd', 'sysv'):
@@ -270,7 +294,7 @@ def oracle(case, impl):
     # expected step names from the program shape
     expected = []      # (macro index, macro, micro index, name)
     for mi, m in enumerate(prog):
-        names = CTOR_NAMES if m == 'C' else DTOR_NAMES if m == 'D' else ['W'] if m == 'W' else SET_NAMES
+        names = CTOR_NAMES if m == 'C' else DTOR_NAMES if m == 'D' else ['W'] if m == 'W' else ['N'] if m.startswith('N') else SET_NAMES
         for k, nm in enumerate(names):
             expected.append((mi, m, k, nm))
     pos = 0            # number of program steps completed
@@ -466,16 +490,99 @@ def build_harness(ck):
     return ck.link('h_signal', h + objs, flags=['-fsanitize=address,undefined'])
 
 
-def run_impl(exe, lines, shards):
-    exe_args = [exe, str(NSTEPS['R'])]
+APP_PROGRAM = 'C R:1:1 W W D'      # what mp::BackendApp + StdBackend do with the handler (see harness/h_signal.cc, C15_APP)
+APP_NL = """g3 1 1 0\t# problem app
+ 2 1 1 0 0\t# vars, constraints, objectives, ranges, eqns
+ 0 0\t# nonlinear constraints, objectives
+ 0 0\t# network constraints: nonlinear, linear
+ 0 0 0\t# nonlinear vars in constraints, objectives, both
+ 0 0 0 1\t# linear network variables; functions; arith, flags
+ 0 0 0 0 0\t# discrete variables: binary, integer, nonlinear (b,c,o)
+ 2 2\t# nonzeros in Jacobian, gradients
+ 0 0\t# max name lengths: constraints, variables
+ 0 0 0 0 0\t# common exprs: b,c,o,c1,o1
+C0
+n0
+O0 0
+n0
+r
+1 4
+b
+0 0 3
+0 0 3
+k1
+1
+J0 2
+0 1
+1 1
+G0 2
+0 1
+1 2
+"""
+
+
+APP_VARIANTS = {'APP': APP_PROGRAM,          # plain run
+                'APPA': APP_PROGRAM,         # with -AMPL (banner, .sol file written)
+                'APPE': 'C R:1:1 W D',       # Solve throws mp::Error: BackendApp::Run reports it; no ReportResults
+                'APPX': 'C R:1:1 W D',       # Solve throws std::runtime_error
+                'APPU': 'C D'}               # no stub given: usage message, handler created and destroyed only
+
+
+def app_token(case):
+    t = case.split(' ')
+    return t[1] if len(t) > 1 and t[1] in APP_VARIANTS else None
+
+
+def is_app(case):
+    return app_token(case) is not None
+
+
+def unapp(case):
+    """the macro program a BackendApp run amounts to (for the model and for the oracle)"""
+    t = app_token(case)
+    return case.replace(' %s ' % t, ' %s ' % APP_VARIANTS[t], 1) if t else case
+
+
+def build_app_harness(ck, extra_flags=()):
+    """the same harness source compiled as a real mp driver: BackendApp + StdBackend (harness/recsolver's RecBackend)"""
+    import recsolver
+    F = ('-O1',)
+    srcs = [os.path.join(recsolver.RDIR, f) for f in ['recmodelmgr.cc', 'recmodelapi.cc', 'recbackend.cc']]
+    objs = ck.objects(srcs, flags=F, extra_inc=[recsolver.RDIR], tag='rec')
+    h = ck.objects([os.path.join(VERIF, 'harness', 'h_signal.cc')], flags=F + ('-DC15_APP',) + tuple(extra_flags),
+                   extra_inc=[recsolver.RDIR], tag='c15app')
+    return ck.link('h_signalapp', h + objs + ck.libmp_objects(flags=F))
+
+
+def run_impl(exe, lines, shards, app_exe=None):
+    """runs every case on the real code; APP cases go to the BackendApp build of the harness"""
+    if app_exe is not None:
+        ia = [i for i, l in enumerate(lines) if is_app(l)]
+        io = [i for i, l in enumerate(lines) if not is_app(l)]
+        outs = [None] * len(lines)
+        stub = os.path.join(BUILD, 'c15', 'app')
+        os.makedirs(os.path.dirname(stub), exist_ok=True)
+        open(stub + '.nl', 'w').write(APP_NL)
+        for idx, ex, extra, tag in ((io, exe, [], 'u'), (ia, app_exe, [stub], 'a')):
+            if idx:
+                res = run_impl_one(ex, [lines[i] for i in idx], shards, extra, tag)
+                for i, r in zip(idx, res):
+                    outs[i] = r
+        return outs
+    return run_impl_one(exe, lines, shards, [], 'u')
+
+
+def run_impl_one(exe, lines, shards, extra_args, tag):
+    exe_args = [exe, str(NSTEPS['R'])] + list(extra_args)
     os.makedirs(os.path.join(BUILD, 'c15'), exist_ok=True)
     chunks = [lines[i::shards] for i in range(shards)]
     procs = []
     for i, ch in enumerate(chunks):
-        fin = os.path.join(BUILD, 'c15', 'ops.%d.txt' % i)
-        fout = os.path.join(BUILD, 'c15', 'impl.%d.out' % i)
+        fin = os.path.join(BUILD, 'c15', 'ops.%s%d.txt' % (tag, i))
+        fout = os.path.join(BUILD, 'c15', 'impl.%s%d.out' % (tag, i))
         open(fin, 'w').write('\n'.join(ch) + ('\n' if ch else ''))
-        procs.append((subprocess.Popen(exe_args, stdin=open(fin), stdout=open(fout, 'w'), stderr=subprocess.PIPE), fout, ch))
+        procs.append((subprocess.Popen(exe_args, stdin=open(fin), stdout=open(fout, 'w'), stderr=subprocess.PIPE,
+                                       env=dict(os.environ, RECSOLVER_LOG='/dev/null')), fout, ch))
     outs = [None] * len(lines)
     for i, (p, fout, ch) in enumerate(procs):
         _, err = p.communicate()
@@ -493,6 +600,7 @@ def run_model(drv, lines, layout='pinned'):
     # the model does not have the inherited disposition (it only matters before the handler is installed, and the
     # generator never schedules a signal there for /ign cases): the model is asked about the same case without it
     lines = [l.replace('/ign ', ' ', 1) if l.split(' ', 1)[0].endswith('/ign') else l for l in lines]
+    lines = [unapp(l) for l in lines]
     p = subprocess.run([drv, layout], input='\n'.join(lines) + '\n', capture_output=True, text=True)
     if p.returncode != 0:
         raise RuntimeError('model driver failed: %s' % p.stderr[-800:])
@@ -512,6 +620,164 @@ def first_diff(a, b):
         if x != y:
             return i, x, y
     return None
+
+
+ANCHOR_FILES = ['src/solver.cc', 'include/mp/solver-app-base.h', 'include/mp/solver-base.h',
+                'include/mp/backend-app.h', 'include/mp/backend-std.h']
+# functions of anchors.mechanism (+ the constructor and the stop query): (file, regex on the demangled gcov function name)
+MECHANISM = [
+    ('src/solver.cc', r'SignalHandler::HandleSigInt'),
+    ('src/solver.cc', r'SignalHandler::SetHandler'),
+    ('src/solver.cc', r'SignalHandler::~SignalHandler'),
+    ('src/solver.cc', r'SignalHandler::SignalHandler'),
+    ('include/mp/solver-app-base.h', r'SignalHandler::Stop'),
+    ('include/mp/solver-base.h', r'BasicSolver::(set_interrupter|interrupter|Stop|SetHandler)'),
+    ('include/mp/backend-std.h', r'StdBackend<.*>::(SetupTimerAndInterrupter|SetupInterrupter|RunFromNLFile)'),
+    ('include/mp/backend-app.h', r'BackendApp::(InitHandlers|Run|Init|BackendApp|~BackendApp)'),
+]
+
+
+def coverage_run(ck, lines, with_app=True, label='after'):
+    """VERIF_COVERAGE=1: gcov line/branch coverage of the anchored files under the quick-tier input stream.
+    Only solver.cc and the harness TUs (which instantiate the anchored headers) are instrumented; every child
+    flushes its counters before _exit (harness, C15_COVERAGE)."""
+    import shutil, recsolver
+    cdir = os.path.join(BUILD, 'c15cov')
+    shutil.rmtree(cdir, ignore_errors=True)
+    os.makedirs(cdir)
+    inc = ['-I' + os.path.join(REPO, 'include'), '-I' + os.path.join(REPO, 'src'), '-I' + os.path.join(VERIF, 'harness'),
+           '-I' + recsolver.RDIR]
+    defs = ['-DMP_DATE=20240320', '-DMP_SYSINFO="Linux x86_64"', '-DMP_USE_ATOMIC', '-DMP_USE_HASH', '-DMP_USE_UNIQUE_PTR',
+            '-DAMPL_MP_VERIF', '-DC15_COVERAGE']
+    base = ['g++', '-std=c++17', '-w', '-O0', '-g', '--coverage'] + defs + inc
+
+    def cc(src, out, extra=()):
+        rc, o, e = sh(base + list(extra) + ['-c', src, '-o', os.path.join(cdir, out)], cwd=cdir, timeout=3000)
+        if rc != 0:
+            raise RuntimeError('coverage compile failed: ' + e[-2000:])
+        return os.path.join(cdir, out)
+    from concurrent.futures import ThreadPoolExecutor
+    jobs = [(os.path.join(REPO, 'src', 'solver.cc'), 'solver.o', ()),
+            (os.path.join(VERIF, 'harness', 'h_signal.cc'), 'h_unit.o', ())]
+    if with_app:
+        jobs.append((os.path.join(VERIF, 'harness', 'h_signal.cc'), 'h_app.o', ('-DC15_APP',)))
+    with ThreadPoolExecutor(max_workers=3) as ex:
+        objs = list(ex.map(lambda j: cc(*j), jobs))
+    rest = [o for o in ck.libmp_objects(flags=('-O1',)) if 'solver_cc' not in os.path.basename(o)]
+    exe_u = os.path.join(cdir, 'h_unit')
+    rc, o, e = sh(['g++', '--coverage', objs[1], objs[0]] + rest + ['-o', exe_u, '-ldl'], timeout=1800)
+    if rc != 0:
+        raise RuntimeError('coverage link failed: ' + e[-2000:])
+    exe_a = None
+    if with_app:
+        srcs = [os.path.join(recsolver.RDIR, f) for f in ['recmodelmgr.cc', 'recmodelapi.cc', 'recbackend.cc']]
+        robjs = ck.objects(srcs, flags=('-O1',), extra_inc=[recsolver.RDIR], tag='rec')
+        exe_a = os.path.join(cdir, 'h_app')
+        rc, o, e = sh(['g++', '--coverage', objs[2], objs[0]] + robjs + rest + ['-o', exe_a, '-ldl'], timeout=1800)
+        if rc != 0:
+            raise RuntimeError('coverage link failed: ' + e[-2000:])
+    use = [l for l in lines if with_app or not is_app(l)]
+    run_impl(exe_u, use, 6, exe_a)
+    # gcov
+    rc, o, e = sh(['gcov-12', '-b', '-c', '-d', '-p', '-o', cdir] + [os.path.basename(x) for x in objs], cwd=cdir, timeout=1800)
+    if rc != 0:
+        raise RuntimeError('gcov failed: ' + (o + e)[-1500:])
+    res = {}
+    for af in ANCHOR_FILES:
+        key = af.replace('/', '#')
+        files = [f for f in os.listdir(cdir) if f.endswith('.gcov') and f.endswith(key + '.gcov')]
+        lines_cov, br_cov, funcs = {}, {}, {}
+        for f in files:
+            cur_line = None
+            bidx = 0
+            pending_fn = None
+            for ln in open(os.path.join(cdir, f), errors='replace'):
+                if ln.startswith('function '):
+                    m = re.match(r'function (\S+) called (\d+)', ln)
+                    if m:
+                        pending_fn = (m.group(1), int(m.group(2)))
+                    continue
+                if ln.startswith('branch') or ln.startswith('call') or ln.startswith('unconditional'):
+                    if ln.startswith('branch') and cur_line is not None:
+                        taken = 0
+                        m = re.match(r'branch\s+\d+ taken (\d+)', ln)
+                        if m:
+                            taken = int(m.group(1))
+                        k = (cur_line, bidx)
+                        br_cov[k] = max(br_cov.get(k, 0), taken)
+                        bidx += 1
+                    continue
+                m = re.match(r'\s*([^:]+):\s*(\d+):(.*)$', ln)
+                if not m:
+                    continue
+                cnt, no, txt = m.group(1).strip(), int(m.group(2)), m.group(3)
+                if no == 0:
+                    continue
+                if cur_line != no:
+                    cur_line, bidx = no, 0
+                if pending_fn:
+                    name, called = pending_fn
+                    pending_fn = None
+                    d = funcs.setdefault((name, no), 0)
+                    funcs[(name, no)] = max(d, called)
+                if cnt == '-':
+                    continue
+                c = 0 if cnt.startswith('#') or cnt.startswith('=') else int(re.sub(r'[^0-9]', '', cnt) or 0)
+                lines_cov[no] = max(lines_cov.get(no, 0), c)
+                lines_cov.setdefault(('txt', no), txt)
+        nums = [k for k in lines_cov if isinstance(k, int)]
+        res[af] = {'lines': len(nums), 'lines_hit': sum(1 for k in nums if lines_cov[k] > 0),
+                   'branches': len(br_cov), 'branches_hit': sum(1 for v in br_cov.values() if v > 0),
+                   'line_cov': lines_cov, 'br_cov': br_cov, 'funcs': funcs, 'tus': len(files)}
+    return res, cdir
+
+
+def demangle(names):
+    p = subprocess.run(['c++filt'], input='\n'.join(names) + '\n', capture_output=True, text=True)
+    return p.stdout.split('\n')[:len(names)]
+
+
+def coverage_report(res, label):
+    """markdown + summary numbers for the mechanism functions"""
+    out = ['### %s' % label, '', '| anchored file | TUs | lines hit/total | line % | branches hit/total | branch % |', '|---|---|---|---|---|---|']
+    for af in ANCHOR_FILES:
+        r = res[af]
+        out.append('| %s | %d | %d/%d | %.1f | %d/%d | %.1f |' % (af, r['tus'], r['lines_hit'], r['lines'], 100.0 * r['lines_hit'] / max(1, r['lines']),
+                                                                r['branches_hit'], r['branches'], 100.0 * r['branches_hit'] / max(1, r['branches'])))
+    out += ['', 'Mechanism functions (anchors.mechanism + constructor + stop query + the driver functions that use the handler):', '',
+            '| function | file:line | called | lines hit/total | branches hit/total | uncovered lines | untaken branches (line:index) |', '|---|---|---|---|---|---|---|']
+    mt = {'lines': 0, 'lines_hit': 0, 'branches': 0, 'branches_hit': 0}
+    for af, rx in MECHANISM:
+        r = res[af]
+        fl = sorted(r['funcs'].items(), key=lambda kv: kv[0][1])
+        names = demangle([k[0] for k, _ in fl])
+        seen_fn = {}
+        for (k, called), dn in zip(fl, names):          # complete/base constructor and destructor variants: one row
+            key2 = (dn, k[1])
+            seen_fn[key2] = max(seen_fn.get(key2, 0), called)
+        fl = [((dn, st), c) for (dn, st), c in seen_fn.items()]
+        fl.sort(key=lambda kv: kv[0][1])
+        names = [k[0] for k, _ in fl]
+        starts = [k[1] for k, _ in fl]
+        for i, ((mn, start), called) in enumerate(fl):
+            dn = names[i]
+            if not re.search(rx, dn):
+                continue
+            nxt = min([s for s in starts if s > start] or [10 ** 9])
+            ls = [n for n in r['line_cov'] if isinstance(n, int) and start <= n < nxt]
+            hit = [n for n in ls if r['line_cov'][n] > 0]
+            bs = [k for k in r['br_cov'] if start <= k[0] < nxt]
+            bh = [k for k in bs if r['br_cov'][k] > 0]
+            mt['lines'] += len(ls); mt['lines_hit'] += len(hit); mt['branches'] += len(bs); mt['branches_hit'] += len(bh)
+            short = re.sub(r'mp::(internal::)?', '', dn)
+            short = re.sub(r'<.*>', '<…>', short)[:70]
+            out.append('| `%s` | %s:%d | %d | %d/%d | %d/%d | %s | %s |' % (short, os.path.basename(af), start, called, len(hit), len(ls), len(bh), len(bs),
+                                                                         ' '.join(str(n) for n in sorted(set(ls) - set(hit))) or '–',
+                                                                         ' '.join('%d:%d' % k for k in sorted(set(bs) - set(bh))) or '–'))
+    out.append('')
+    out.append('Mechanism total: lines %d/%d (%.1f %%), branches %d/%d (%.1f %%)' % (mt['lines_hit'], mt['lines'], 100.0 * mt['lines_hit'] / max(1, mt['lines']),
+                                                                                    mt['branches_hit'], mt['branches'], 100.0 * mt['branches_hit'] / max(1, mt['branches'])))
+    return '\n'.join(out), mt
 
 
 N_THEOREMS = 28
@@ -552,8 +818,33 @@ def run(ck):
     cases, enum_desc = gen_cases(ck)
     lines = [l for _, l in cases]
     ck.log('%d cases (%s)' % (len(lines), ', '.join('%s=%d' % (o, sum(1 for x, _ in cases if x == o))
-                                                        for o in ['corpus', 'counterexample', 'enum', 'enum-stdout', 'enum-inherited-ign', 'enum-extra', 'random', 'malformed'])))
-    impl = run_impl(exe, lines, 8 if ck.tier == 'thorough' else 6)
+                                                        for o in ['corpus', 'counterexample', 'enum', 'enum-stdout', 'enum-inherited-ign', 'enum-backendapp', 'enum-extra', 'random', 'malformed'])))
+    if os.environ.get('VERIF_COVERAGE'):
+        sel = os.environ.get('VERIF_COVERAGE')
+        old_origins = ('corpus', 'counterexample', 'enum', 'enum-extra', 'random', 'malformed')
+        if sel == 'before':    # the input stream and harness as they were before rounds 2/3 (file stdout, default dispositions, no driver)
+            use = [l for (o, l) in cases if o in old_origins and '/' not in l.split(' ', 1)[0] and ' N:' not in l and not l.startswith('bsd N')]
+            res, cdir = coverage_run(ck, use, with_app=False)
+        else:
+            res, cdir = coverage_run(ck, lines, with_app=True)
+        md, mt = coverage_report(res, 'coverage run "%s": %d cases' % (sel, len(use) if sel == 'before' else len(lines)))
+        os.makedirs(os.path.join(VERIF, 'design_notes', 'coverage'), exist_ok=True)
+        open(os.path.join(VERIF, 'design_notes', 'coverage', 'C15.%s.gen.md' % sel), 'w').write(md + '\n')
+        tot_l = sum(res[a]['lines'] for a in ANCHOR_FILES); hit_l = sum(res[a]['lines_hit'] for a in ANCHOR_FILES)
+        tot_b = sum(res[a]['branches'] for a in ANCHOR_FILES); hit_b = sum(res[a]['branches_hit'] for a in ANCHOR_FILES)
+        summ = {'run': sel, 'cases': len(use) if sel == 'before' else len(lines), 'tier': ck.tier, 'seed': ck.seed,
+                'per_file': {a: {'line_cov': round(100.0 * res[a]['lines_hit'] / max(1, res[a]['lines']), 1),
+                                 'branch_cov': round(100.0 * res[a]['branches_hit'] / max(1, res[a]['branches']), 1),
+                                 'lines': res[a]['lines'], 'branches': res[a]['branches']} for a in ANCHOR_FILES},
+                'anchor_files_line_cov': round(100.0 * hit_l / max(1, tot_l), 1),
+                'anchor_files_branch_cov': round(100.0 * hit_b / max(1, tot_b), 1),
+                'mechanism_line_cov': round(100.0 * mt['lines_hit'] / max(1, mt['lines']), 1),
+                'mechanism_branch_cov': round(100.0 * mt['branches_hit'] / max(1, mt['branches']), 1),
+                'mechanism_lines': mt['lines'], 'mechanism_branches': mt['branches']}
+        json.dump(summ, open(os.path.join(VERIF, 'design_notes', 'coverage', 'C15.%s.json' % sel), 'w'), indent=1)
+        ck.log('coverage (%s): %s' % (sel, json.dumps({k: v for k, v in summ.items() if k != 'per_file'})))
+    app_exe = build_app_harness(ck)
+    impl = run_impl(exe, lines, 8 if ck.tier == 'thorough' else 6, app_exe)
     ck.log('implementation runs done')
     model = run_model(drv, lines, layout)
     ck.log('model runs done')
@@ -570,10 +861,21 @@ def run(ck):
             if il != 'bad-op' or ml != 'bad-op':
                 corr_bad.append((case, il, ml, 'malformed input must be rejected by both sides'))
             continue
+        if is_app(case):
+            # after ~BackendApp the backend (which holds the interrupter pointer) no longer exists: field not observable
+            k = ml.find(' free[')
+            if k >= 0:
+                ml = ml[:k] + re.sub(r',i[SOX],', ',i-,', ml[k:])
+            case = unapp(case)
+            hist['backendapp_runs'] = hist.get('backendapp_runs', 0) + 1
         if case.split(' ', 1)[0].endswith('/ign'):
             # the state flags show 2 for an ignored signal; the model only tracks "HandleSigInt installed or not"
             il = il.replace(',I2,', ',I0,').replace(',T2]', ',T0]')
             hist['inherited_ignored'] = hist.get('inherited_ignored', 0) + 1
+        if out_state(case) == 'part':
+            # short write followed by a failing one: for the model this is a failing write; what arrived must be a prefix
+            hist['short_writes'] = hist.get('short_writes', 0) + il.count('brk=P')
+            il = il.replace('brk=P', 'brk=E').replace('brk=0', 'brk=E')    # (a zero-length write shows nothing either way)
         if out_state(case) == 'null':      # /dev/null: the break text cannot be observed; not compared
             il, ml = BRK_RE.sub('brk=~', il), BRK_RE.sub('brk=~', ml)
         if il != ml:
@@ -601,6 +903,76 @@ def run(ck):
             oracle_bad.setdefault(sig, []).append((case, what, il))
         if origin == 'counterexample':
             cx_seen[case] = [s for s, _ in verdicts]
+    # which arms of the model functions did the compared stream exercise (counted on the model's own output)
+    arms = {}
+
+    def arm(k, n=1):
+        arms[k] = arms.get(k, 0) + n
+    ARM_KEYS = (['applyMicro.' + n for n in ('cAlloc', 'cIntr', 'cPtr(alive)', 'cSize', 'cSigInt', 'cSigTerm', 'cStop0', 'setH', 'setD', 'work', 'nreg',
+                                              'dIntr', 'dStop1', 'dH0', 'dSize0', 'dFree(msgPtr live->dangling)')] +
+                ['applyMicro.cPtr(not alive)', 'applyMicro.dFree(msgPtr not live)', 'applyMicro.dFree(intr obj->dangling)',
+                 'deliver.killed(int)', 'deliver.killed(term)', 'deliver.sem=bsd', 'deliver.sem=sysv', 'deliver.exit1', 'deliver.callback', 'deliver.no-callback',
+                 'deliver.sig=int', 'deliver.sig=term', 'writeObs.ok', 'writeObs.fail', 'writeObs.ok(flag false: read from dead/null string)',
+                 'stopQuery.obj(stop!=0)', 'stopQuery.obj(stop=0)', 'stopQuery.self', 'stopQuery.dangling',
+                 'schedule.signal-at-end', 'schedule.several-signals-in-one-gap', 'exec.after-halt(ignored events)'])
+    NAME2ARM = {'sh.ctor.enter': 'cAlloc', 'sh.ctor.after_set_interrupter': 'cIntr', 'sh.ctor.after_msg_ptr': 'cPtr(alive)', 'sh.ctor.after_msg_size': 'cSize',
+                'sh.ctor.after_signal_int': 'cSigInt', 'sh.ctor.after_signal_term': 'cSigTerm', 'sh.ctor.after_stop0': 'cStop0',
+                'sh.set.after_handler_clear': 'setH', 'sh.set.after_handler': 'setH', 'sh.set.after_data': 'setD', 'N': 'nreg',
+                'sh.dtor.after_set_interrupter': 'dIntr', 'sh.dtor.after_stop1': 'dStop1', 'sh.dtor.after_handler0': 'dH0',
+                'sh.dtor.after_msg_size0': 'dSize0', 'free': 'dFree(msgPtr live->dangling)'}
+    for (origin, case), ml in zip(cases, model):
+        if origin == 'malformed' or ml == 'bad-op':
+            continue
+        sem = case.split(' ', 1)[0].split('/')[0]
+        toks = ml.split(' ')
+        prev_sig = False
+        sched_gaps = [x.split(':')[0] for x in case.split('|', 1)[1].split()]
+        if len(set(sched_gaps)) < len(sched_gaps):
+            arm('schedule.several-signals-in-one-gap')
+        halted = not ml.endswith(' end')
+        if halted and len(sched_gaps) > sum(1 for t in toks if t.startswith('!')):
+            arm('exec.after-halt(ignored events)')
+        for i, t in enumerate(toks[1:], 1):
+            head = t.split('[')[0]
+            if t.startswith('!'):
+                g = 'int' if t[1] == 'I' else 'term'
+                if 'killed=' in t:
+                    arm('deliver.killed(%s)' % g)
+                    continue
+                arm('deliver.sig=' + g)
+                arm('deliver.sem=' + sem)
+                arm('writeObs.fail' if 'brk=E' in t else 'writeObs.ok(flag false: read from dead/null string)' if 'brk=!' in t else 'writeObs.ok')
+                if 'exit=' in t:
+                    arm('deliver.exit1')
+                else:
+                    arm('deliver.no-callback' if 'cb=-' in t else 'deliver.callback')
+                if i == len(toks) - 2 and toks[-1] == 'end':
+                    arm('schedule.signal-at-end')
+            elif head.startswith('W('):
+                st_ = t.split('[')[1]
+                if ',iO,' in st_:
+                    arm('stopQuery.obj(stop!=0)' if 'q=1' in head else 'stopQuery.obj(stop=0)')
+                elif ',iS,' in st_:
+                    arm('stopQuery.self')
+                else:
+                    arm('stopQuery.dangling')
+                arm('applyMicro.work')
+            elif head in NAME2ARM:
+                arm('applyMicro.' + NAME2ARM[head])
+                if head == 'free' and ',iX,' in t:
+                    arm('applyMicro.dFree(intr obj->dangling)')
+            if ',pX,' in t and head == 'sh.ctor.after_msg_ptr':
+                arm('applyMicro.cPtr(not alive)')
+    ck.cov['model_arms'] = {k: arms.get(k, 0) for k in ARM_KEYS}
+    ck.cov['model_arms_never_taken'] = [k for k in ARM_KEYS if not arms.get(k)]
+    covf = os.path.join(VERIF, 'design_notes', 'coverage', 'C15.after.json')
+    if os.path.exists(covf):
+        cj = json.load(open(covf))
+        ck.cov['anchor_line_cov'] = cj.get('mechanism_line_cov')
+        ck.cov['anchor_branch_cov'] = cj.get('mechanism_branch_cov')
+        ck.cov['anchor_cov_note'] = ('gcov of the functions named in anchors.mechanism (+ctor, stop query, BackendApp/StdBackend functions that use the handler) '
+                                     'as measured by the last VERIF_COVERAGE=after run (design_notes/coverage/C15.after.json); whole anchored files: '
+                                     'line %s %%, branch %s %%' % (cj.get('anchor_files_line_cov'), cj.get('anchor_files_branch_cov')))
     # the proved counterexamples must reproduce on the real code (otherwise model and code have drifted apart:
     # reported through the correspondence below; here only recorded)
     cx = []
@@ -684,13 +1056,17 @@ def replay(ck, path):
     cf, rf, names = detect_layout(exe)
     set_layout(bool(cf), bool(rf))
     layout = LAYOUT_NAME[(bool(cf), bool(rf))]
-    il = run_impl(exe, [case], 1)[0]
+    il = run_impl(exe, [case], 1, build_app_harness(ck) if is_app(case) else None)[0]
     ml = run_model(drv, [case], layout)[0]
+    if is_app(case):
+        k = ml.find(' free[')
+        if k >= 0:
+            ml = ml[:k] + re.sub(r',i[SOX],', ',i-,', ml[k:])
     print('layout    : ' + layout)
     print('case      : ' + case)
     print('real code : ' + il)
     print('model     : ' + ml)
-    verd = oracle(case, il)
+    verd = oracle(unapp(case), il)
     for s, w in verd:
         print('property oracle: %s — %s' % (s, w))
     if il != ml:
